@@ -98,20 +98,23 @@ inductive FeedR (σ : Type)
   | badHeld (k : Nat) (s : σ)           -- byte NOT consumed: the first `k` held bytes are ill-formed; go on in state `s`
 
 /-- byte-at-a-time transducer.  `held s` = number of bytes the state holds (`cnv->toULength`); `flushStep` = what the end
-    of the input makes of a state: `some (k, s')` = report `k` held bytes as truncated / ill-formed, go on from `s'` -/
+    of the input makes of a state: `some k` = the `k` held bytes are reported as ONE truncated sequence
+    (U_TRUNCATED_CHAR_FOUND in `_toUnicodeWithCallback`) and the converter is reset -/
 structure Trans where
   σ : Type
   init : σ
   feed : σ → Nat → FeedR σ
   held : σ → Nat
-  flushStep : σ → Option (Nat × σ)
+  flushStep : σ → Option Nat
 
 structure Trans.Ok (t : Trans) : Prop where
   emit_held : ∀ s b us s', t.feed s b = .emit us s' → t.held s' ≤ t.held s + 1
   take_held : ∀ s b k s', t.feed s b = .badTake k s' → t.held s' ≤ t.held s + 1
   badHeld_lt : ∀ s b k s', t.feed s b = .badHeld k s' → t.held s' < t.held s
   badHeld_once : ∀ s b k s' k' s'', t.feed s b = .badHeld k s' → t.feed s' b ≠ .badHeld k' s''
-  flush_lt : ∀ s k s', t.flushStep s = some (k, s') → t.held s' < t.held s
+  flush_pos : ∀ s k, t.flushStep s = some k → 0 < t.held s
+  init_held : t.held t.init = 0
+  init_flush : t.flushStep t.init = none
 
 /-- state of the converter built from a transducer: the units that did not fit into the target
     (`cnv->UCharErrorBuffer`, e.g. the trail surrogate of a pair whose lead took the last slot) and the transducer state -/
@@ -124,7 +127,7 @@ def Trans.run (t : Trans) : t.σ → List Nat → Bool → Nat → StepR (TS t)
   | s, [], flush, _ =>
     if flush = true then
       match t.flushStep s with
-      | some (k, s') => ⟨[], 0, ⟨[], s'⟩, .invalid k false⟩
+      | some k => ⟨[], 0, ⟨[], t.init⟩, .invalid k false⟩
       | none => ⟨[], 0, ⟨[], s⟩, .ok⟩
     else ⟨[], 0, ⟨[], s⟩, .ok⟩
   | s, b :: rest, flush, room =>
@@ -139,17 +142,11 @@ def Trans.run (t : Trans) : t.σ → List Nat → Bool → Nat → StepR (TS t)
       | .badTake k s' => ⟨[], 1, ⟨[], s'⟩, .invalid k false⟩
       | .badHeld k s' => ⟨[], 0, ⟨[], s'⟩, .invalid k false⟩
 
-/-- reports the end of the input draws from a state (fuel = `held`, which `flush_lt` makes sufficient) -/
-def Trans.flushEvs (t : Trans) : Nat → t.σ → List Ev
-  | 0, _ => []
-  | n + 1, s =>
-    match t.flushStep s with
-    | some (k, s') => .bad k false :: t.flushEvs n s'
-    | none => []
-
 /-- denotation of a transducer state over the remaining input -/
 def Trans.evs (t : Trans) : t.σ → List Nat → List Ev
-  | s, [] => t.flushEvs (t.held s) s
+  | s, [] => match t.flushStep s with
+    | some k => [.bad k false]
+    | none => []
   | s, b :: rest =>
     match t.feed s b with
     | .emit us s' => us.map .unit ++ t.evs s' rest
@@ -214,7 +211,7 @@ def utf8T : Trans where
   init := []
   feed := utf8Feed
   held := List.length
-  flushStep := fun h => if h = [] then none else some (h.length, [])
+  flushStep := fun h => if h = [] then none else some h.length
 
 /-- the UTF-8 converter (`ucnv_open("UTF-8")`) -/
 def utf8 : Conv := utf8T.toConv
@@ -247,7 +244,7 @@ def utf16T (be : Bool) : Trans where
   init := []
   feed := utf16Feed be
   held := List.length
-  flushStep := fun h => if h = [] then none else some (h.length, [])
+  flushStep := fun h => if h = [] then none else some h.length
 
 /-- `ucnv_open("UTF-16BE")` (`be`) / `ucnv_open("UTF-16LE")` -/
 def utf16 (be : Bool) : Conv := (utf16T be).toConv
